@@ -336,6 +336,18 @@ func (s *SpokFile) findClosestMatch(task string) string {
 // If a spokfile is found, it's absolute path will be returned
 // typical usage will make start = $CWD and stop = $HOME.
 func Find(logger logger.Logger, start, stop string) (string, error) {
+	// Directories are compared by how they are spelled, so spell both the same way:
+	// "$HOME/" is still $HOME and "." still has parents
+	absStart, err := filepath.Abs(start)
+	if err != nil {
+		return "", fmt.Errorf("could not resolve '%s': %w", start, err)
+	}
+	absStop, err := filepath.Abs(stop)
+	if err != nil {
+		return "", fmt.Errorf("could not resolve '%s': %w", stop, err)
+	}
+	start, stop = absStart, absStop
+
 	for {
 		logger.Debug("Looking in %s for spokfile", start)
 		entries, err := os.ReadDir(start)
